@@ -34,6 +34,7 @@ package distinct
 //@   pure
 //@   requires inv(c)
 //@   ensures [C19] power: c.k < 64 ==> result == bv64(len(c.buf)) * pow2bv(c.k)
+//@   at after "p2k := uint64(1) << uint64(bits.LeadingZeros64(c.p))": assert [C19] c.k < 64 ==> p2k == pow2bv(c.k)
 //@
 //@ func (*Counter).Add
 //@   requires [C19] inv(c)
